@@ -15,19 +15,20 @@ import (
 )
 
 type Engine struct {
-	prog      *ssa.Program
-	pkgs      map[string]*ssa.Package // by path
-	cs        *ContractSet
-	reg       *Registry
-	modPath   string // module path of the repository under verification
-	tags      map[string]int
-	tagTypes  []types.Type
-	counter   map[string]int
-	allNamed  []*types.Named // named types of repository packages (for closed-world interface reasoning)
-	warnings  map[string]bool
-	implCache map[string][]types.Type
-	workDir   string
-	feasN     int
+	globalStores map[*ssa.Global]bool // globals stored to outside package initialisers
+	prog         *ssa.Program
+	pkgs         map[string]*ssa.Package // by path
+	cs           *ContractSet
+	reg          *Registry
+	modPath      string // module path of the repository under verification
+	tags         map[string]int
+	tagTypes     []types.Type
+	counter      map[string]int
+	allNamed     []*types.Named // named types of repository packages (for closed-world interface reasoning)
+	warnings     map[string]bool
+	implCache    map[string][]types.Type
+	workDir      string
+	feasN        int
 }
 
 func (e *Engine) fresh(prefix string) string {
